@@ -3,102 +3,187 @@ from props.common import *
 import math, struct
 from fractions import Fraction
 import realtrig
-from props.c04 import (qmul, qconj, norm2, dot, rv, Trig, mkex, chk, fr, vec_goals, is_num, ZERO, ONE, EPS, abstract_ites)
+from irsym import Exec
 
 LEVEL = 'proof'
 CLAIM = ("slerp (with and without spin count), mix, lerp, gtx shortMix / fastMix / squad and the dual-quaternion lerp are executed symbolically from their clang IR. In rounding-erased real "
          "arithmetic the solver proves, as a chain of lemmas each of which is a discharged obligation: the result has the shape (sin(theta-u) x + sin(u) z)/sin(theta) with z = +-y chosen so that "
-         "<x,z> >= 0 (slerp) resp. z = y (mix), theta = acos<x,z>, u = t*theta (u = t*(theta+k*pi) with spins); hence unit length, <x,result> = cos(u) and <z,result> = cos(theta-u) (constant angular speed "
-         "on the great arc, any real t), end points t=0 -> x, t=1 -> +-y, symmetry slerp(x,y,t) = +-slerp(y,x,1-t); on the linear-fallback branch the result is the affine blend. lerp is bit-exactly "
-         "x*(1-a)+y*a per component and its asserts are the only traps. In IEEE arithmetic the argument of acos in slerp is shown to lie in [0, 1-eps] whenever the acos branch is taken.")
-BOUNDS = ("rounding-erased semantics for the arc claims (all unit x, y; every real t; spin counts k in -3..3 as separate instantiations); float and double; the branch conditions (sign flip, fallback threshold 1-eps) "
-          "are those of the exact values; lerp and the acos-domain claim are bit-precise over all inputs (acos-domain: the dot product abstracted to an arbitrary non-NaN float)")
-OUTSIDE = ("size of rounding errors (e.g. |norm-1| after rounding, behaviour at separations of 1e-9 rad beyond the branch analysis); mix for exactly antipodal inputs (<x,y> = -1: division by sin(pi) = 0 in exact arithmetic); "
-           "squad away from its end points; gtx intermediate (quaternion exp/log); sin(acos(c)) > 0 for the libm functions in IEEE arithmetic (only the acos-domain part of the no-NaN claim is decided)")
+         "<x,z> >= 0 (slerp, shortMix) resp. z = y (mix), theta = acos<x,z> (shortMix: atan2(sqrt(1-<x,z>^2), <x,z>)), u = t*theta (u = t*(theta+k*pi) with spins); hence (code-free lemmas, for unit x, y) unit length, "
+         "<x,result> = cos(u) and <z,result> = cos(theta-u) (constant angular speed on the great arc, any real t), end points t=0 -> x, t=1 -> +-y (separate executions with the literal factor), "
+         "symmetry slerp(x,y,t) = +-slerp(y,x,1-t) (two executions on swapped arguments); on the linear-fallback branch the result is the affine blend whose squared norm differs from 1 by at most 12 eps for t in [-2,3]. "
+         "lerp is bit-exactly x*(1-a)+y*a per component (IEEE, operands of the commutative operations sorted) and its asserts are the only traps; the dual-quaternion lerp is x*(1-a) +- y*a; fastMix is the normalised blend "
+         "(unit length, end points); shortMix clamps a to [0,1]; squad returns q1 / q2 at h = 0 / 1. In IEEE arithmetic the argument of acos in slerp is shown to lie in [0, 1-eps] whenever the acos branch is taken.")
+BOUNDS = ("rounding-erased semantics for the arc claims (code links: all real quaternions x, y - unit length is only needed by the code-free lemmas -, every real t; spin counts k in -3..3 as separate instantiations); float and double; "
+          "the branch conditions (sign flip, fallback threshold 1-eps) are those of the exact values; lerp and the acos-domain claim are bit-precise over all inputs (acos-domain: every floating-point sum/product "
+          "abstracted to an arbitrary float, the dot product assumed not NaN)")
+OUTSIDE = ("size of rounding errors (e.g. |norm-1| after rounding, behaviour at separations of 1e-9 rad beyond the branch analysis); mix for exactly antipodal inputs (<x,y> = -1: division by sin(pi) = 0 in exact arithmetic; "
+           "in IEEE arithmetic a dot product rounded below -1 makes acos return NaN); fastMix of antipodal inputs at a = 1/2 (blend is zero: normalize returns the identity quaternion); "
+           "squad away from its end points; gtx intermediate (quaternion exp/log: no model of exp/log); sin(acos(c)) > 0 for the libm functions in IEEE arithmetic (only the acos-domain part of the no-NaN claim is decided); "
+           "with spin count k the linear-fallback branch (<x,+-y> > 1-eps, axis of rotation ill-defined) ignores k: only end points and the affine shape are claimed there; "
+           "symmetry of the spin variant up to the sign (-1)^k is attempted as optional")
 ASSUMPTIONS = ['float/double literals that are the correctly rounded value of k*pi denote k*pi in the rounding-erased semantics',
-               'libm sin/cos/acos/atan2 are the mathematical functions in the rounding-erased semantics; uninterpreted (same argument, same result) in the bit-precise obligations']
+               'libm sin/cos/acos/atan2 are the mathematical functions in the rounding-erased semantics; uninterpreted (same argument, same result) in the bit-precise obligations',
+               'lerp bit-exactness: IEEE addition and multiplication are commutative (operands are sorted before the compiled term and the transcribed formula are compared)']
 
 FT = {'f32': 'float', 'f64': 'double'}
 SPINS = [-3, -2, -1, 0, 1, 2, 3]
+def kname(k): return 'slerpk%s' % str(k).replace('-', 'm')
 U = Unit('c13', includes=['glm/glm.hpp', 'glm/gtc/quaternion.hpp', 'glm/gtx/quaternion.hpp', 'glm/gtx/dual_quaternion.hpp', 'glm/gtx/compatibility.hpp'])
 for t, c in FT.items():
     Q = 'ldq<%s>' % c
     sig = ([(c, 4), (c, 4), (c, 1)], [(c, 4)])
     U.add('slerp_' + t, *sig, 'stq(o, glm::slerp(%s(a), %s(b), c[0]));' % (Q, Q))
     for k in SPINS:
-        U.add('slerpk%s_%s' % (str(k).replace('-', 'm'), t), *sig, 'stq(o, glm::slerp(%s(a), %s(b), c[0], %d));' % (Q, Q, k))
+        U.add('%s_%s' % (kname(k), t), *sig, 'stq(o, glm::slerp(%s(a), %s(b), c[0], %d));' % (Q, Q, k))
     U.add('mix_' + t, *sig, 'stq(o, glm::mix(%s(a), %s(b), c[0]));' % (Q, Q))
     U.add('lerp_' + t, *sig, 'stq(o, glm::lerp(%s(a), %s(b), c[0]));' % (Q, Q))
     U.add('shortmix_' + t, *sig, 'stq(o, glm::shortMix(%s(a), %s(b), c[0]));' % (Q, Q))
     U.add('fastmix_' + t, *sig, 'stq(o, glm::fastMix(%s(a), %s(b), c[0]));' % (Q, Q))
     U.add('squad_' + t, [(c, 4), (c, 4), (c, 4), (c, 4), (c, 1)], [(c, 4)], 'stq(o, glm::squad(%s(a), %s(b), %s(c), %s(d), e[0]));' % (Q, Q, Q, Q))
+    U.add('intermediate_' + t, [(c, 4)], [(c, 4)], 'auto q = %s(a); stq(o, glm::intermediate(q, q, q));' % Q)
+    U.add('qexp_' + t, [(c, 4)], [(c, 4)], 'stq(o, glm::exp(%s(a)));' % Q)
     U.add('dqlerp_' + t, [(c, 8), (c, 8), (c, 1)], [(c, 8)],
           'glm::tdualquat<%s> x(%s(a), %s(a+4)), y(%s(b), %s(b+4)); auto r = glm::lerp(x, y, c[0]); stq(o, r.real); stq(o+4, r.dual);' % (c, Q, Q, Q, Q))
 def units(tier): return [U]
 
+# ------------------------------------------------------------------------------------------------ specification-side helpers (pure mathematics, nothing shared with glm)
+def norm2(v):
+    r = v[0] * v[0]
+    for x in v[1:]: r = r + x * x
+    return r
+def dot(u, v):
+    r = u[0] * v[0]
+    for x, y in zip(u[1:], v[1:]): r = r + x * y
+    return r
 def unit(q): return norm2(q) == 1
-def kname(k): return 'slerpk%s' % str(k).replace('-', 'm')
+def rv(x): return x.r if isinstance(x, RV) else x
+def fr(x): return z3.RealVal(str(Fraction(x)))
+EPS = {'f32': fr(2.0 ** -23), 'f64': fr(2.0 ** -52)}
+ZERO, ONE = z3.RealVal(0), z3.RealVal(1)
+def is_num(t):
+    t = z3.simplify(t); return z3.is_rational_value(t) or z3.is_algebraic_value(t) or z3.is_int_value(t)
+
+class Trig:
+    """sin/cos/acos/atan2/sqrt of specification terms: the executor's own table variable when symbolic (the link 'argument == specification term' is a separate obligation),
+    the numeric libm value when a counterexample is replayed"""
+    def __init__(s, ex): s.ex = ex
+    def _f(s, fn, x):
+        if is_num(x): return z3.RealVal(repr(getattr(math, fn)(float(z3val_to_fraction(x)))))
+        return realtrig.trig_var(s.ex, fn, (x,))
+    def sin(s, x): return s._f('sin', x)
+    def cos(s, x): return s._f('cos', x)
+    def pi(s, like): return z3.RealVal(repr(math.pi)) if is_num(like) else realtrig.real_pi(s.ex)
+    def sqrt(s, k, X):
+        if is_num(X): return z3.RealVal(repr(math.sqrt(max(0.0, float(z3val_to_fraction(X))))))
+        log = getattr(s.ex, 'sqrt_log', [])
+        return log[k][1] if k < len(log) else z3.Real('missing!sqrt%d' % k)       # the code executed no such call: unconstrained, the goals mentioning it fail and are replayed numerically
+    def sqrt_arg(s, k, X):
+        log = getattr(s.ex, 'sqrt_log', [])
+        return X if is_num(X) else (log[k][0] if k < len(log) else z3.Real('missing!sqrtarg%d' % k))
+    def _calls(s, fn):
+        r = [(v, argt) for key, (v, argt) in getattr(s.ex, 'trig', {}).items() if key[0] == fn]
+        return r + [(z3.Real('missing!%s%d' % (fn, j)), tuple(z3.Real('missing!%sarg%d_%d' % (fn, j, n)) for n in range(2))) for j in range(len(r), 4)]
+    def inv(s, fn, k, *X):
+        if all(is_num(x) for x in X):
+            a = [float(z3val_to_fraction(x)) for x in X]
+            if fn in ('acos', 'asin'): a = [max(-1.0, min(1.0, a[0]))]
+            return z3.RealVal(repr(getattr(math, fn)(*a)))
+        return s._calls(fn)[k][0]
+    def inv_arg(s, fn, k, j, X): return X if is_num(X) else s._calls(fn)[k][1][j]
+
+def mkex(unit_, mode, unwind):
+    ex = Exec(unit_.module(), fmode='real' if mode == 'real' else 'fp', unwind=unwind)
+    if mode == 'real':
+        realtrig.map_pi_literals(ex); ex.trig_domain = True; ex.model_inputs_hook = realtrig.model_inputs_hook
+    return ex
+def chk(S, unit_, fn, spec, pre=None, setup=None, **kw):
+    """check_fn in real mode; spec(i, o, T) gets a Trig context bound to the executor that ran the code; setup(res, T) may instantiate true trigonometric facts on its table"""
+    box = {}
+    def xh(res):
+        box['T'] = Trig(res.ex); box['res'] = res
+        return list(setup(res, box['T']) or []) if setup else []
+    kw.setdefault('mode', 'real'); kw.setdefault('timeout', S.cap(40, 120)); kw.setdefault('solver', 'nra')
+    return S.check_fn(unit_, fn, lambda i, o: spec(i, o, box['T']), pre, extra_hyps=xh, ex=mkex, **kw)
 
 # ------------------------------------------------------------------------------------------------ the arc: specification-side names of the scalars
-def arc(i, T, flip_allowed=True, k=None):
-    """theta = acos<x,z>, u = t*theta (or t*(theta+k*pi)); returns the scalars the lemmas talk about (code's own trig variables when symbolic, libm values on replay)"""
+def arc(i, T, kind='slerp', k=None):
+    """theta = acos<x,z> (shortMix: atan2(sqrt(1-<x,z>^2), <x,z>)), u = t*theta (or t*(theta+k*pi)); the scalars the lemmas talk about"""
     x, y, t = i[0], i[1], i[2][0]
-    c0 = dot(x, y); flip = (c0 < 0) if flip_allowed else z3.BoolVal(False)
+    c0 = dot(x, y); flip_allowed = kind != 'mix'
+    flip = (c0 < 0) if flip_allowed else z3.BoolVal(False)
     z = [z3.If(flip, -b, b) for b in y] if flip_allowed else list(y)
     C = z3.If(flip, -c0, c0) if flip_allowed else c0
-    th = T.inv('acos', 0, C)
-    u = t * th if k is None else t * (th + k * (z3.RealVal(repr(math.pi)) if is_num(th) else realtrig.real_pi(T.ex)))
-    return dict(x=x, y=y, z=z, t=t, C=C, flip=flip, th=th, u=u, S=T.sin(th), Cth=T.cos(th), su=T.sin(u), cu=T.cos(u), s1=T.sin(th - u), c1=T.cos(th - u))
+    A = dict(x=x, y=y, z=z, t=t, C=C, flip=flip)
+    if kind == 'short':
+        A['X'] = 1 - C * C; A['R'] = T.sqrt(0, A['X']); th = T.inv('atan2', 0, A['R'], C)
+    else:
+        th = T.inv('acos', 0, C)
+    u = t * th if k is None else t * (th + k * T.pi(th))
+    A.update(th=th, u=u, S=T.sin(th), Cth=T.cos(th), su=T.sin(u), cu=T.cos(u), s1=T.sin(th - u), c1=T.cos(th - u))
+    return A
 
-def arc_setup(res, T, flip_allowed=True, k=None):
+def arc_setup(res, T, kind='slerp', k=None):
     """instantiate the addition formula for (theta) + (-u) on the executor's table (true facts of sin/cos)"""
-    t = res.ins[2][0]; th = T._calls('acos')[0][0]
+    t = res.ins[2][0]; th = T._calls('atan2' if kind == 'short' else 'acos')[0][0]
     u = t * th if k is None else t * (th + k * realtrig.real_pi(res.ex))
     realtrig.trig_sum(res.ex, th, -u)
     return []
 
-def job_slerp(t, fn='slerp', flip=True, k=None):
-    """code links of the chain for slerp / slerp with spin count / mix"""
+def arc_goals(A, out, g0, g1, tag=''):
+    """code links shared by slerp / mix / spins / shortMix; g0: guard of the arc branch, g1: guard of the linear fallback"""
+    g = [('sin(theta)>0', RGoal('gt', A['S'], ZERO, g0)), ('cos(theta)==<x,z>', RGoal('eq', A['Cth'], A['C'], g0)),
+         ('sin(theta-u)==S*cu-C*su', RGoal('eq', A['s1'], A['S'] * A['cu'] - A['Cth'] * A['su'], g0)), ('cos(theta-u)==C*cu+S*su', RGoal('eq', A['c1'], A['Cth'] * A['cu'] + A['S'] * A['su'], g0))]
+    g += [('shape[%d]: out*sin(theta)==sin(theta-u)*x+sin(u)*z' % j, RGoal('eq', out[j] * A['S'], A['s1'] * A['x'][j] + A['su'] * A['z'][j], g0)) for j in range(4)]
+    g += [('fallback[%d]: out==x*(1-t)+z*t' % j, RGoal('eq', out[j], A['x'][j] * (1 - A['t']) + A['z'][j] * A['t'], g1)) for j in range(4)]
+    return g
+
+def job_slerp(t, fn='slerp', kind='slerp', k=None):
+    """code links of the chain for slerp / slerp with spin count / mix, and the end points"""
     eps = EPS[t]
     def run(S):
         name = fn + '_' + t
-        pre = lambda i: [unit(i[0]), unit(i[1])] + ([] if flip else [dot(i[0], i[1]) > -1])
+        pre = (lambda i: [dot(i[0], i[1]) > -1]) if kind == 'mix' else None
         def spec(i, o, T):
-            A = arc(i, T, flip, k); out = [rv(v) for v in o[0]]
+            A = arc(i, T, kind, k); out = [rv(v) for v in o[0]]
             fb = A['C'] > 1 - eps; nf = z3.Not(fb)
-            g = [('acos.arg==<x,z>', RGoal('eq', T.inv_arg('acos', 0, 0, A['C']), A['C'], nf)), ('sin(theta)>0', RGoal('gt', A['S'], ZERO, nf)), ('cos(theta)==<x,z>', RGoal('eq', A['Cth'], A['C'], nf)),
-                 ('sin(theta-u)==S*cu-C*su', RGoal('eq', A['s1'], A['S'] * A['cu'] - A['Cth'] * A['su'], nf)), ('cos(theta-u)==C*cu+S*su', RGoal('eq', A['c1'], A['Cth'] * A['cu'] + A['S'] * A['su'], nf))]
-            g += [('shape[%d]: out*sin(theta)==sin(theta-u)*x+sin(u)*z' % j, RGoal('eq', out[j] * A['S'], A['s1'] * A['x'][j] + A['su'] * A['z'][j], nf)) for j in range(4)]
-            g += [('fallback[%d]: out==x*(1-t)+z*t' % j, RGoal('eq', out[j], A['x'][j] * (1 - A['t']) + A['z'][j] * A['t'], fb)) for j in range(4)]
-            g += [('short-arc: <x,z> >= 0', RGoal('ge', dot(A['x'], A['z']), ZERO))] if flip else []
+            g = [('acos.arg==<x,z>', RGoal('eq', T.inv_arg('acos', 0, 0, A['C']), A['C'], nf))] + arc_goals(A, out, nf, fb)
+            if kind != 'mix': g.append(('short-arc: theta<=pi/2', RGoal('le', 2 * A['th'], T.pi(A['th']), nf)))
             return g
-        chk(S, U, name, spec, pre, setup=lambda res, T: arc_setup(res, T, flip, k),
-            bounds='all unit x, y%s; every real t; chain link (code): shape of the result and the trig facts used by lemmas.*' % ('' if flip else ' with <x,y> > -1'))
-        # end points: t = 0 and t = 1 as separate executions of the same code
+        chk(S, U, name, spec, pre, setup=lambda res, T: arc_setup(res, T, kind, k),
+            bounds='all real quaternions x, y%s; every real t; chain link (code): shape of the result and the trig facts used by lemmas.*' % (' with <x,y> > -1' if kind == 'mix' else ''))
+        # end points: t = 0 and t = 1 as separate executions of the same code with the literal factor
         for tv in (0, 1):
             def spec_e(i, o, T, tv=tv):
                 x, y = i[0], i[1]; c0 = dot(x, y); out = [rv(v) for v in o[0]]
-                fl = (c0 < 0) if flip else z3.BoolVal(False)
-                sgn = 1 if (k is None or tv == 0 or k % 2 == 0) else -1
-                want = x if tv == 0 else [z3.If(fl, -b, b) * sgn for b in y]
-                return [('t=%d[%d]' % (tv, j), REq(out[j], want[j])) for j in range(4)]
+                fl = (c0 < 0) if kind != 'mix' else z3.BoolVal(False)
+                z = [z3.If(fl, -b, b) for b in y]; C = z3.If(fl, -c0, c0); fb = C > 1 - eps
+                if tv == 0: return [('t=0[%d]: out==x' % j, REq(out[j], x[j])) for j in range(4)]
+                sgn = 1 if (k is None or k % 2 == 0) else -1
+                if sgn == 1: return [('t=1[%d]: out==z' % j, REq(out[j], z[j])) for j in range(4)]
+                return ([('t=1[%d]: out==(-1)^k z (arc branch)' % j, RGoal('eq', out[j], -z[j], z3.Not(fb))) for j in range(4)]
+                        + [('t=1.fallback[%d]: out==z' % j, RGoal('eq', out[j], z[j], fb)) for j in range(4)])
             x_, y_ = [z3.Real('a%d' % j) for j in range(4)], [z3.Real('b%d' % j) for j in range(4)]
             chk(S, U, name, spec_e, pre, ins=[x_, y_, [z3.RealVal(tv)]], name='c13.%s.t=%d' % (name, tv),
-                bounds='all unit x, y; t = %d: result is %s' % (tv, 'x' if tv == 0 else ('+-y (the representative with <x,.> >= 0%s)' % (', times (-1)^k' if k is not None else '') if flip else 'y')))
+                bounds='all real quaternions x, y%s; t = %d: result is %s' % (' with <x,y> > -1' if kind == 'mix' else '', tv, 'x' if tv == 0 else
+                       ('y' if kind == 'mix' else 'z = +-y, the representative with <x,z> >= 0%s' % (' (times (-1)^k on the arc branch: theta+k*pi is the angle travelled)' if k is not None else ''))))
     return run
 
-def job_symmetry(t):
+def job_symmetry(t, fn='slerp', k=None):
     def run(S):
-        name = 'slerp_' + t; eps = EPS[t]
+        name = fn + '_' + t
         ex = mkex(U, 'real', 16)
         r1 = sym_call(U, name, mode='real', ex=ex); x, y, tt = r1.ins[0], r1.ins[1], r1.ins[2][0]
         r2 = sym_call(U, name, ins=[y, x, [1 - tt]], mode='real', ex=ex)
         c0 = dot(x, y); flip = c0 < 0
-        hy = [unit(x), unit(y)] + r1.axioms
+        fb = z3.If(flip, -c0, c0) > 1 - EPS[t]
         for j in range(4):
             a, b = r1.outs[0][j].r, r2.outs[0][j].r
-            S.prove('c13.%s.symmetry[%d]: slerp(x,y,t) == sign(<x,y>) slerp(y,x,1-t)' % (name, j), a == z3.If(flip, -b, b), hy, timeout=S.cap(40, 120), solver='nra', kind='spec',
-                    functions=['w_' + name + ' (two executions sharing the trig table)'], bounds='all unit x, y with <x,y> != 0 handled by either sign; every real t')
+            if k is None or k % 2 == 0:
+                S.prove('c13.%s.symmetry[%d]: slerp(x,y,t) == sign(<x,y>) slerp(y,x,1-t)' % (name, j), a == z3.If(flip, -b, b), r1.axioms, timeout=S.cap(40, 120), solver='nra', kind='spec',
+                        mandatory=k is None, functions=['w_' + name + ' (two executions sharing the trig table)'], bounds='all real quaternions x, y (either sign of <x,y>, both branches); every real t')
+            else:
+                S.prove('c13.%s.symmetry[%d]: slerp(x,y,t,k) == -sign(<x,y>) slerp(y,x,1-t,k) (arc branch, k odd)' % (name, j), z3.Implies(z3.Not(fb), a == z3.If(flip, b, -b)), r1.axioms, timeout=S.cap(40, 120),
+                        solver='nra', kind='spec', mandatory=False, functions=['w_' + name + ' (two executions sharing the trig table)'], bounds='all real quaternions x, y; every real t')
     return run
 
 def job_lemmas(S):
@@ -109,6 +194,8 @@ def job_lemmas(S):
     P('bilinear.norm: |a x + b z|^2 == a^2|x|^2 + 2ab<x,z> + b^2|z|^2', norm2(out) == a * a * norm2(x) + 2 * a * b * dot(x, z) + b * b * norm2(z))
     P('bilinear.dotx: <x, a x + b z> == a|x|^2 + b<x,z>', dot(x, out) == a * norm2(x) + b * dot(x, z))
     P('bilinear.dotz: <z, a x + b z> == a<x,z> + b|z|^2', dot(z, out) == a * dot(x, z) + b * norm2(z))
+    P('bilinear.scale: |s o|^2 == s^2 |o|^2', norm2([a * p for p in x]) == a * a * norm2(x))
+    P('bilinear.scale.dot: <x, s o> == s <x, o>', dot(x, [a * q for q in z]) == a * dot(x, z))
     Sn, C, su, cu, s1, N, D, nx, nz, d = z3.Reals('S C su cu s1 N D nx nz d')
     trig = [Sn * Sn + C * C == 1, su * su + cu * cu == 1, s1 == Sn * cu - C * su]
     P('scalar.norm: s1^2 + 2 s1 su C + su^2 == S^2', s1 * s1 + 2 * s1 * su * C + su * su == Sn * Sn, trig)
@@ -117,29 +204,70 @@ def job_lemmas(S):
     P('glue.norm: |out|^2 == 1', N == 1, [N * Sn * Sn == s1 * s1 * nx + 2 * s1 * su * d + su * su * nz, nx == 1, nz == 1, d == C, s1 * s1 + 2 * s1 * su * C + su * su == Sn * Sn, Sn > 0])
     P('glue.dotx: <x,out> == cos(u)', D == cu, [D * Sn == s1 * nx + su * d, nx == 1, d == C, s1 + su * C == Sn * cu, Sn > 0])
     P('glue.dotz: <z,out> == cos(theta-u)', D == C * cu + Sn * su, [D * Sn == s1 * d + su * nz, nz == 1, d == C, s1 * C + su == Sn * (C * cu + Sn * su), Sn > 0])
-    # |y| = 1 -> |z| = 1 and <x,z> = |<x,y>| for z = +-y
+    # z = +-y: |z| = |y|, <x,z> = |<x,y>| >= 0 (short arc: theta <= pi/2)
     y = list(z3.Reals('y0 y1 y2 y3')); f = z3.Bool('flip'); zz = [z3.If(f, -v, v) for v in y]
-    P('flip.norm: |+-y| == |y|', norm2(zz) == norm2(y)); P('flip.dot', dot(x, zz) == z3.If(f, -dot(x, y), dot(x, y)))
-    # fallback branch: affine blend of unit quaternions with <x,z> = C: |r|^2 - 1 == -2 t (1-t) (1-C)
-    tt = z3.Real('t'); bl = [p * (1 - tt) + q * tt for p, q in zip(x, z)]
+    P('flip.norm: |+-y| == |y|', norm2(zz) == norm2(y)); P('flip.dot: <x,+-y> == +-<x,y>', dot(x, zz) == z3.If(f, -dot(x, y), dot(x, y)))
+    P('short-arc: <x,z> >= 0 for z = (<x,y> < 0 ? -y : y)', z3.If(d < 0, -d, d) >= 0)
+    # fallback branch: affine blend of unit quaternions with <x,z> = C: |r|^2 - 1 == -2 t (1-t) (1-C), within [-eps/2, 12 eps] for t in [-2,3]
+    tt, e = z3.Reals('t e'); bl = [p * (1 - tt) + q * tt for p, q in zip(x, z)]
     P('fallback.norm: |x(1-t)+z t|^2 - 1 == -2t(1-t)(1-<x,z>)', norm2(bl) - 1 == -2 * tt * (1 - tt) * (1 - dot(x, z)), [norm2(x) == 1, norm2(z) == 1])
+    hb = [N - 1 == -2 * tt * (1 - tt) * (1 - C), C > 1 - e, C <= 1, e > 0, tt >= -2, tt <= 3]
+    P('fallback.norm.upper: |r|^2 - 1 <= 12 eps (t in [-2,3])', N - 1 <= 12 * e, hb)
+    P('fallback.norm.lower: |r|^2 - 1 >= -eps/2 (t in [-2,3])', 2 * (N - 1) >= -e, hb)
+    P('cauchy-schwarz.sumsq: |v|^2 >= 0', norm2(x) >= 0)
+    P('cauchy-schwarz.glue: |x-z|^2 == 2 - 2<x,z>, |x-z|^2 >= 0 -> <x,z> <= 1', d <= 1, [N == 2 - 2 * d, N >= 0])
+    P('cauchy-schwarz.expand: |x-z|^2 == 2 - 2<x,z> for unit x, z', norm2([p - q for p, q in zip(x, z)]) == 2 - 2 * dot(x, z), [norm2(x) == 1, norm2(z) == 1])
+    # normalised blend (fastMix): out*L == r, L^2 == |r|^2, L > 0  ->  |out| = 1
+    L, B = z3.Reals('L B')
+    P('nlerp.norm: |out|^2 == 1', N == 1, [N * L * L == B, L * L == B, L > 0])
+
+# ------------------------------------------------------------------------------------------------ lerp
+def canon_fp(t, memo):
+    """sort the operands of IEEE add/mul (commutative; SMT-LIB FP has a single NaN) so that clang's operand order does not matter; memo keeps the keyed terms alive"""
+    def go(x):
+        k = x.get_id()
+        if k in memo: return memo[k][1]
+        ch = x.children()
+        if ch:
+            nc = [go(c) for c in ch]
+            if z3.is_app(x) and x.decl().kind() in (z3.Z3_OP_FPA_ADD, z3.Z3_OP_FPA_MUL) and len(nc) == 3 and nc[1].get_id() > nc[2].get_id(): nc = [nc[0], nc[2], nc[1]]
+            r = x.decl()(*nc) if not all(p.eq(q) for p, q in zip(nc, ch)) else x
+        else: r = x
+        memo[k] = (x, r); return r
+    return go(t)
 
 def job_lerp(t):
-    c = FT[t]; w = 32 if t == 'f32' else 64
+    w = 32 if t == 'f32' else 64
     def run(S):
-        one = FPV(1.0, w)
-        def pre(i): a = fpof(i[2][0]); return [z3.fpGEQ(a, FPV(0.0, w)), z3.fpLEQ(a, one)]
-        def spec(i, o):
-            a = fpof(i[2][0]); om = z3.fpSub(RNE, one, a)
-            return [('lerp[%d] == x*(1-a) + y*a (IEEE)' % j, same_float(o[0][j], z3.fpToIEEEBV(z3.fpAdd(RNE, z3.fpMul(RNE, fpof(i[0][j]), om), z3.fpMul(RNE, fpof(i[1][j]), a))))) for j in range(4)]
-        S.check_fn(U, 'lerp_' + t, spec, pre, mode='fp', bounds='all bit patterns of x, y; 0 <= a <= 1 (the asserted range): no trap reachable, result bit-identical to the documented expression',
-                   mutant=lambda i, o: [('m', same_float(o[0][0], z3.fpToIEEEBV(z3.fpAdd(RNE, z3.fpMul(RNE, fpof(i[0][0]), fpof(i[2][0])), z3.fpMul(RNE, fpof(i[1][0]), z3.fpSub(RNE, one, fpof(i[2][0])))))))])
-        # the asserts are live: outside [0,1] a trap is reachable
-        res = sym_call(U, 'lerp_' + t, mode='fp')
-        traps = [cnd for kind, cnd, d in res.obligations if kind == 'trap']
-        a = fpof(res.ins[2][0])
-        S.prove('c13.lerp_%s.assert-live(a>1)' % t, z3.Not(z3.Or(*traps)) if traps else z3.BoolVal(True), [z3.fpGT(a, one)], timeout=S.cap(20, 60), kind='mutant-twin', expect='sat', mandatory=False, functions=['w_lerp_' + t])
-        S.prove('c13.lerp_%s.assert-live(a<0)' % t, z3.Not(z3.Or(*traps)) if traps else z3.BoolVal(True), [z3.fpLT(a, FPV(0.0, w))], timeout=S.cap(20, 60), kind='mutant-twin', expect='sat', mandatory=False, functions=['w_lerp_' + t])
+        one = FPV(1.0, w); name = 'lerp_' + t
+        # [fp] bit-exact: the compiled term and the documented expression, operands of + and * sorted
+        res = sym_call(U, name, mode='fp'); i, o = res.ins, res.outs
+        a = fpof(i[2][0]); om = z3.fpSub(RNE, one, a); memo = {}
+        rng = [z3.fpGEQ(a, FPV(0.0, w)), z3.fpLEQ(a, one)]
+        fl = ['w_' + name]
+        S.prove('c13.%s.witness' % name, z3.BoolVal(False), rng, timeout=S.cap(20, 60), kind='witness', expect='sat', mandatory=False, functions=fl)
+        for j in range(4):
+            want = z3.fpAdd(RNE, z3.fpMul(RNE, fpof(i[0][j]), om), z3.fpMul(RNE, fpof(i[1][j]), a))
+            S.prove('c13.%s.lerp[%d] == x*(1-a) + y*a (IEEE)' % (name, j), canon_fp(o[0][j].fp, memo) == canon_fp(want, memo), rng, timeout=S.cap(30, 90), kind='spec', functions=fl,
+                    bounds='all bit patterns of x, y; 0 <= a <= 1 (the asserted range); result bit-identical (one NaN) to the documented expression')
+        traps = [cnd for kind_, cnd, d in res.obligations if kind_ in ('trap', 'unreachable')]
+        S.prove('c13.%s.trap-free on 0<=a<=1' % name, z3.Not(z3.Or(*traps)) if traps else z3.BoolVal(True), rng, timeout=S.cap(20, 60), kind='trap', functions=fl, bounds='all bit patterns of x, y; 0 <= a <= 1')
+        other = [cnd for kind_, cnd, d in res.obligations if kind_ not in ('trap', 'unreachable')]
+        if other: S.prove('c13.%s.no-ub' % name, z3.Not(z3.Or(*other)), rng, timeout=S.cap(20, 60), kind='ub', functions=fl)
+        # the asserts are live: outside [0,1] (and for NaN) a trap is reachable
+        tr = [cnd for kind_, cnd, d in res.obligations if kind_ == 'trap']
+        for lab, hy in (('a>1', z3.fpGT(a, one)), ('a<0', z3.fpLT(a, FPV(0.0, w))), ('a NaN', z3.fpIsNaN(a))):
+            S.prove('c13.%s.assert-live(%s)' % (name, lab), z3.Not(z3.Or(*tr)) if tr else z3.BoolVal(True), [hy], timeout=S.cap(20, 60), kind='mutant-twin', expect='sat', mandatory=False, functions=fl)
+        # [real] the same expression with rounding erased (a wrong blend is then reported with a replayable counterexample)
+        pre_r = lambda i: [i[2][0] >= 0, i[2][0] <= 1]
+        def spec_r(i, o, T):
+            x, y, a_ = i[0], i[1], i[2][0]
+            return [('lerp[%d] == x*(1-a) + y*a (exact)' % j, REq(rv(o[0][j]), x[j] * (1 - a_) + y[j] * a_)) for j in range(4)]
+        chk(S, U, name, spec_r, pre_r, name='c13.%s.real' % name, bounds='all real quaternions, 0 <= a <= 1 (asserted range, traps unreachable); rounding-erased')
+    return run
+
+def job_dqlerp(t):
+    def run(S):
         # dual-quaternion linear blend: x*(1-a) + y*(+-a), sign by <x.real, y.real>; end points
         def pre_d(i): return [i[2][0] >= 0, i[2][0] <= 1]
         def spec_d(i, o, T):
@@ -152,11 +280,153 @@ def job_lerp(t):
                 return [('dualquat.lerp.t=%d[%d]' % (tv, j), REq(rv(o[0][j]), x[j] if tv == 0 else y[j] * sg)) for j in range(8)]
             chk(S, U, 'dqlerp_' + t, spec_de, None, ins=[[z3.Real('a%d' % j) for j in range(8)], [z3.Real('b%d' % j) for j in range(8)], [z3.RealVal(tv)]], name='c13.dqlerp_%s.t=%d' % (t, tv),
                 bounds='a = %d: result is %s' % (tv, 'x' if tv == 0 else '+-y (sign of <x.real,y.real>)'))
+        # the asserts are live
+        res = sym_call(U, 'dqlerp_' + t, mode='real', ex=mkex(U, 'real', 16)); a = res.ins[2][0]
+        tr = [cnd for kind_, cnd, d in res.obligations if kind_ == 'trap']
+        for lab, hy in (('a>1', a > 1), ('a<0', a < 0)):
+            S.prove('c13.dqlerp_%s.assert-live(%s)' % (t, lab), z3.Not(z3.Or(*tr)) if tr else z3.BoolVal(True), [hy] + res.axioms, timeout=S.cap(20, 60), solver='nra', kind='mutant-twin', expect='sat', mandatory=False, functions=['w_dqlerp_' + t])
+    return run
+
+# ------------------------------------------------------------------------------------------------ gtx: shortMix, fastMix, squad
+def job_shortmix(t):
+    eps = EPS[t]
+    def run(S):
+        name = 'shortmix_' + t
+        def spec(i, o, T):
+            A = arc(i, T, 'short'); out = [rv(v) for v in o[0]]; a = A['t']
+            lo, hi = a <= 0, a >= 1; mid = z3.And(a > 0, a < 1)
+            fb = z3.And(mid, A['C'] > 1 - eps); nf = z3.And(mid, z3.Not(A['C'] > 1 - eps))
+            g = [('a<=0[%d]: out==x' % j, RGoal('eq', out[j], A['x'][j], lo)) for j in range(4)]
+            g += [('a>=1[%d]: out==y' % j, RGoal('eq', out[j], A['y'][j], z3.And(z3.Not(lo), hi))) for j in range(4)]
+            g += [('sqrt.arg==1-<x,z>^2', RGoal('eq', T.sqrt_arg(0, A['X']), A['X'], nf)), ('sqrt>0', RGoal('gt', A['R'], ZERO, nf)),
+                  ('atan2.y==sqrt(1-<x,z>^2)', RGoal('eq', T.inv_arg('atan2', 0, 0, A['R']), A['R'], nf)), ('atan2.x==<x,z>', RGoal('eq', T.inv_arg('atan2', 0, 1, A['C']), A['C'], nf)),
+                  ('sin(theta)==sqrt(1-<x,z>^2)', RGoal('eq', A['S'], A['R'], nf))]
+            return g + arc_goals(A, out, nf, fb)
+        chk(S, U, name, spec, None, setup=lambda res, T: arc_setup(res, T, 'short'),
+            bounds='all real quaternions x, y; every real a (a <= 0 -> x, a >= 1 -> y, else the slerp shape with theta = atan2(sqrt(1-c^2), c) resp. the affine blend above the threshold)')
+    return run
+
+def job_fastmix(t):
+    def run(S):
+        name = 'fastmix_' + t
+        def blend(i): return [p * (1 - i[2][0]) + q * i[2][0] for p, q in zip(i[0], i[1])]
+        def spec(i, o, T):
+            r = blend(i); X = norm2(r); L = T.sqrt(0, X); out = [rv(v) for v in o[0]]; nz = X > 0
+            g = [('sqrt.arg==|x(1-a)+y a|^2', REq(T.sqrt_arg(0, X), X)), ('len>0', RGoal('gt', L, ZERO, nz))]
+            g += [('shape[%d]: out*len==x(1-a)+y a' % j, RGoal('eq', out[j] * L, r[j], nz)) for j in range(4)]
+            g += [('zero-blend[%d]: identity' % j, RGoal('eq', out[j], ONE if j == 0 else ZERO, z3.Not(nz))) for j in range(4)]
+            return g
+        chk(S, U, name, spec, None, bounds='all real quaternions x, y, every real a: out = blend/|blend| (identity quaternion for a zero blend); with lemmas.nlerp.norm: unit length')
+        for tv in (0, 1):
+            def spec_e(i, o, T, tv=tv): return [('t=%d[%d]: out==%s' % (tv, j, 'xy'[tv]), REq(rv(o[0][j]), i[tv][j])) for j in range(4)]
+            x_, y_ = [z3.Real('a%d' % j) for j in range(4)], [z3.Real('b%d' % j) for j in range(4)]
+            chk(S, U, name, spec_e, lambda i, tv=tv: [unit(i[tv])], ins=[x_, y_, [z3.RealVal(tv)]], name='c13.%s.t=%d' % (name, tv), bounds='unit %s; a = %d' % ('xy'[tv], tv))
+    return run
+
+def job_squad(t):
+    """squad(q1,q2,s1,s2,h) = mix(mix(q1,q2,h), mix(s1,s2,h), 2h(1-h)) at h = 0 / 1.  The nested term is out of reach monolithically; chain: (1) the two inner mix calls, executed on the same
+    executor (same trig table), return q1, s1 (h=0) resp. q2, s2 (h=1) - proved; (2) their (simplified) terms are rewritten to those values inside the squad term, its axioms and side obligations
+    (sound: (1) holds under the same hypotheses; if the terms do not occur the rewrite is a no-op) and the remaining outer mix at factor 0 is decided."""
+    def run(S):
+        name = 'squad_' + t; fl = ['w_' + name, 'w_mix_' + t + ' (inner calls, same executor)']
+        for hv in (0, 1):
+            q = [[z3.Real('%s%d' % (n, j)) for j in range(4)] for n in 'abcd']; H = [z3.RealVal(hv)]
+            pre = [dot(q[0], q[1]) > -1, dot(q[2], q[3]) > -1, dot(q[hv], q[2 + hv]) > -1]
+            ex = mkex(U, 'real', 16)
+            r1 = sym_call(U, 'mix_' + t, ins=[q[0], q[1], H], mode='real', ex=ex); r2 = sym_call(U, 'mix_' + t, ins=[q[2], q[3], H], mode='real', ex=ex)
+            bd = 'all real quaternions inside the domain of the three mix calls (<q1,q2>, <s1,s2>, <q%d,s%d> > -1); h = %d' % (hv + 1, hv + 1, hv)
+            sub = []
+            for tag, rr, want in (('mix(q1,q2,h)', r1, q[hv]), ('mix(s1,s2,h)', r2, q[2 + hv])):
+                for j in range(4):
+                    S.prove('c13.%s.h=%d.inner %s[%d]==%s%d' % (name, hv, tag, j, 'qs'[tag[4] == 's'], hv + 1), rr.outs[0][j].r == want[j], pre + rr.axioms, timeout=S.cap(40, 120), solver='nra', kind='spec', functions=fl, bounds=bd)
+                    sub.append((z3.simplify(rr.outs[0][j].r), want[j]))
+            n_inner = len(ex.obligations)
+            r = sym_call(U, name, ins=q + [H], mode='real', ex=ex)
+            rw = lambda x: z3.substitute(z3.simplify(x), *sub)
+            hy = pre + [rw(a) for a in r.axioms]
+            def spec2(i, o, hv=hv): return [('h=%d[%d]: out==q%d' % (hv, j, hv + 1), REq(rv(o[0][j]), i[hv][j])) for j in range(4)]
+            def mk_replay(label, oname):
+                return lambda m: real_replay(U, name, S._model_inputs(m, r), (spec2, label), None, oname, S.pid)
+            for j in range(4):
+                label = 'h=%d[%d]: out==q%d' % (hv, j, hv + 1); oname = 'c13.%s.%s' % (name, label)
+                S.prove(oname, rw(r.outs[0][j].r) == q[hv][j], hy, timeout=S.cap(40, 120), solver='nra', kind='spec', functions=fl, bounds=bd, replay=mk_replay(label, oname))
+            seen = {}
+            for kind_, cond, d in r.obligations[n_inner:]:          # one query per distinct side condition (the disjunction of all of them is much harder than each)
+                c = rw(cond)
+                if c.sexpr() in seen: continue
+                seen[c.sexpr()] = 1
+                S.prove('c13.%s.h=%d.%s[%s]#%d' % (name, hv, kind_, d[:60], len(seen)), z3.Not(c), hy, timeout=S.cap(40, 120), solver='nra', kind=kind_, functions=fl, bounds=bd, replay=lambda m: ('no-replay', {}))
+    return run
+
+def job_intermediate(t):
+    """gtx intermediate (squad control point) and the quaternion exponential it is built on.  When the three key frames coincide the two logarithms vanish and the control point is the key
+    frame itself (every convention for the squad tangent agrees on this).  Rounding-erased execution of intermediate is not possible (log() returns an infinity constant on one path), so
+    [fp] the claim is decided bit-precisely on the key frames q = (+-1, +-0, +-0, +-0), where every product is exact; [real] exp(q) has the documented shape (cos|v|, sin|v| v/|v|) and is
+    within eps of the identity below its small-angle threshold."""
+    w = 32 if t == 'f32' else 64; eps = EPS[t]
+    def run(S):
+        one = FPV(1.0, w); mag = (1 << (w - 1)) - 1
+        def pre(i): return [z3.fpEQ(z3.fpAbs(fpof(i[0][0])), one)] + [(i[0][j] & mag) == 0 for j in (1, 2, 3)]
+        def spec(i, o):
+            return [('intermediate(q,q,q).w==q.w', z3.fpEQ(o[0][0].fp, fpof(i[0][0])))] + [('intermediate(q,q,q)[%d]==0' % j, z3.fpIsZero(o[0][j].fp)) for j in (1, 2, 3)]
+        S.check_fn(U, 'intermediate_' + t, spec, pre, mode='fp', known=['KF-C13-intermediate-zero'], timeout=S.cap(30, 90),
+                   bounds='q = (+-1, +-0, +-0, +-0) (16 bit patterns, all arithmetic exact); libm log/atan2/sin/cos uninterpreted')
+        def spec_e(i, o, T):
+            q = i[0]; v = q[1:]; X = norm2(v); A = T.sqrt(0, X); out = [rv(x) for x in o[0]]; big = z3.Not(A < eps); small = A < eps
+            g = [('exp.sqrt.arg==|v|^2', REq(T.sqrt_arg(0, X), X)), ('exp.w==cos|v|', RGoal('eq', out[0], T.cos(A), big))]
+            g += [('exp.xyz[%d]*|v|==sin|v|*v' % j, RGoal('eq', out[j] * A, T.sin(A) * q[j], big)) for j in (1, 2, 3)]
+            g += [('exp.small-angle.w>=1-eps', RGoal('ge', out[0], 1 - eps, small)), ('exp.small-angle.w<=1', RGoal('le', out[0], ONE, small))]
+            g += [('exp.small-angle.xyz[%d]^2<=eps^2' % j, RGoal('le', out[j] * out[j], eps * eps, small)) for j in (1, 2, 3)]
+            return g
+        chk(S, U, 'qexp_' + t, spec_e, None, known=['KF-C13-intermediate-zero'],
+            bounds='all real quaternions (the scalar part is ignored by glm::exp: pure-quaternion exponential); |v| >= eps: (cos|v|, sin|v| v/|v|); |v| < eps: within eps of the identity')
+    return run
+
+# ------------------------------------------------------------------------------------------------ [fp] the acos call of slerp stays inside its domain
+ARITH = (z3.Z3_OP_FPA_ADD, z3.Z3_OP_FPA_SUB, z3.Z3_OP_FPA_MUL, z3.Z3_OP_FPA_DIV, z3.Z3_OP_FPA_FMA)
+def abstract_fp_arith(terms):
+    """generalise: every maximal IEEE + - * / fma application becomes a fresh float constant (same term, same constant) - sound for proving validity"""
+    pairs = {}; seen = set()
+    def go(x):
+        k = x.get_id()
+        if k in seen: return
+        seen.add(k)
+        if z3.is_app(x) and x.decl().kind() in ARITH:
+            if k not in pairs: pairs[k] = (x, z3.FP('arith!%d' % len(pairs), x.sort()))
+            return
+        for c in x.children(): go(c)
+    for t_ in terms: go(t_)
+    sub = list(pairs.values())
+    return [z3.substitute(t_, *sub) if sub else t_ for t_ in terms], sub
+
+def job_acos_domain(t, fns):
+    w = 32 if t == 'f32' else 64; epsf = 2.0 ** -23 if t == 'f32' else 2.0 ** -52
+    def run(S):
+        for fn in fns:
+            name = fn + '_' + t
+            res = sym_call(U, name, mode='fp')
+            calls = [c for c in getattr(res.ex, 'call_log', []) if c[0] == 'acos']
+            if len(calls) != 1:
+                S.engine_errors.append('c13.%s.fp: expected exactly one acos call site, found %d' % (name, len(calls))); continue
+            _, _, (arg,), cond = calls[0]
+            (arg_a, cond_a), sub = abstract_fp_arith([arg, cond])
+            hy = [cond_a] + [z3.Not(z3.fpIsNaN(v)) for _, v in sub]
+            thr = z3.fpSub(RNE, FPV(1.0, w), FPV(epsf, w))
+            fl = ['w_' + name]; bd = 'every IEEE sum/product in the argument and the path condition abstracted to an arbitrary non-NaN float (covers all finite inputs whose dot product is not NaN)'
+            S.prove('c13.%s.fp.witness' % name, z3.BoolVal(False), hy, timeout=S.cap(20, 60), kind='witness', expect='sat', mandatory=False, functions=fl)
+            S.prove('c13.%s.fp.acos-arg<=1-eps' % name, z3.fpLEQ(arg_a, thr), hy, timeout=S.cap(30, 90), kind='spec', functions=fl, bounds=bd)
+            S.prove('c13.%s.fp.acos-arg>=0' % name, z3.fpGEQ(arg_a, FPV(0.0, w)), hy, timeout=S.cap(30, 90), kind='spec', functions=fl, bounds=bd)
+            S.prove('c13.%s.fp.acos-arg-not-NaN' % name, z3.Not(z3.fpIsNaN(arg_a)), hy, timeout=S.cap(30, 90), kind='spec', functions=fl, bounds=bd)
+            # twin: the bound is attained (arg == 1-eps is reachable on the acos branch)
+            S.prove('c13.%s.fp.twin(arg<1-eps)' % name, z3.fpLT(arg_a, thr), hy, timeout=S.cap(20, 60), kind='mutant-twin', expect='sat', mandatory=False, functions=fl)
     return run
 
 def jobs(tier):
     q = tier == 'quick'; J = [('lemmas', job_lemmas)]
     for t in FT:
-        J += [('slerp_' + t, job_slerp(t)), ('mix_' + t, job_slerp(t, 'mix', flip=False)), ('symmetry_' + t, job_symmetry(t)), ('lerp_' + t, job_lerp(t))]
-        for k in ((-1, 2) if q else SPINS): J.append(('%s_%s' % (kname(k), t), job_slerp(t, kname(k), k=k)))
+        J += [('slerp_' + t, job_slerp(t)), ('mix_' + t, job_slerp(t, 'mix', kind='mix')), ('symmetry_' + t, job_symmetry(t)), ('lerp_' + t, job_lerp(t)), ('dqlerp_' + t, job_dqlerp(t)),
+              ('shortmix_' + t, job_shortmix(t)), ('fastmix_' + t, job_fastmix(t)), ('squad_' + t, job_squad(t)), ('intermediate_' + t, job_intermediate(t)),
+              ('acosdomain_' + t, job_acos_domain(t, ['slerp'] + [kname(k) for k in ((-1, 2) if q else SPINS)]))]
+        for k in SPINS: J.append(('%s_%s' % (kname(k), t), job_slerp(t, kname(k), k=k)))
+        for k in ((-1, 2) if q else SPINS): J.append(('symmetry_%s_%s' % (kname(k), t), job_symmetry(t, kname(k), k)))
     return J
